@@ -6,6 +6,8 @@ from props import robust_common as rc
 HEVC_VPS = "40010c01ffff022000000300b0000003000003007b18b024"
 HEVC_SPS = "420101022000000300b0000003000003007ba0078200887db6718b92448053888892cf24a69272c9124922dc91aa48fca223ff000100016a02020201"
 HEVC_PPS = "4401c0252f053240"
+AVC_SPS = "6764001eacd940a02ff9610000030001000003003c8f162d96"
+AVC_PPS = "68ebecb22c"
 
 
 def bombs():
@@ -392,6 +394,26 @@ def run_tools(ctx, items, q, extra_streams=()):
                     continue
                 seg_runs += 1
                 jobs.append((name, cmd, ".m4s", sb, ident, "a media segment without moov (sample " + b.hex()[:200] + ")"))
+    # whole fragmented files: an init segment built through the API per sample entry type (parameter sets inside the decoder
+    # configuration record, or in band only: avc3 / hev1 records without any) in front of the media segments
+    inits = [o for o in ctx.harness(["c16-inits", "-avcsps", AVC_SPS, "-avcpps", AVC_PPS, "-vps", HEVC_VPS, "-sps", HEVC_SPS, "-pps", HEVC_PPS])
+             if o.get("type") == "init"]
+    if len(inits) != 4:
+        raise core.Machinery("c16-inits returned %d init segments" % len(inits))
+    file_runs = 0
+    nfile = 40 if q else 400
+    stf = max(1, len(segs) // nfile)
+    for ident, b in segs[ctx.seed % stf::stf]:
+        sb = segment(b)
+        for o in inits:
+            data = bytes.fromhex(o["hex"]) + sb
+            kind = "a fragmented file with an %s sample entry (parameter sets %s the configuration record; sample %s)" % (
+                o["entry"], "in" if o["parameter_sets_in_record"] else "not in", b.hex()[:120])
+            for name, cmd in (("nallister-file-%s" % o["entry"], [nallister, "-sei", "2", "-ps"]),
+                              ("nallister-file-%s-sei1" % o["entry"], [nallister, "-sei", "1"]),
+                              ("pslister-file-%s" % o["entry"], [pslister, "-v", "-i"])):
+                file_runs += 1
+                jobs.append((name, cmd, ".mp4", data, ident, kind))
     import concurrent.futures
     import threading
     tl = threading.local()
@@ -423,7 +445,7 @@ def run_tools(ctx, items, q, extra_streams=()):
                 ctx.report(*res)
     if runs < 200 or seg_runs < 200:
         raise core.Machinery("only %d + %d tool runs" % (runs, seg_runs))
-    return {"inputs": len(streams), "runs": runs, "signatures": signatures, "segments": len(segs), "segment_runs": seg_runs}
+    return {"inputs": len(streams), "runs": runs, "signatures": signatures, "segments": len(segs), "segment_runs": seg_runs, "file_runs": file_runs}
 
 
 def run(ctx):
@@ -535,7 +557,7 @@ def run(ctx):
                          "H6": "NAL unit sequences with their own context (SPS, PPS, then slice header / SEI parsed against them): count and range bombs placed in the parameter sets "
                                "(reference index counts, slice group change rate, HRD cpb counts, sub-picture HRD flags) and the (sps, pps, slice) triples of AvcSyntax.tla / HevcSyntax.tla with mutations",
                          "H7": "%d inputs: Exp-Golomb codes 2^32-1, 2^32, 2^63-1, 2^64-2 inserted at every bit position of the SPS and of the PPS of (SPS, PPS, slice) triples serialised by AvcSyntax.tla / HevcSyntax.tla; the later units are parsed against what was accepted" % h7_count,
-                         "tools": "the built mp4ff-nallister (-annexb, avc / hevc, -sei 2 -ps) and mp4ff-pslister on %d Annex B streams (one per structural signature - leading bytes, start code lengths, unit length classes 0/1/2/3+, first bytes; %d signatures - plus a sample of the rest): %d runs; and on %d media segments without moov holding one generated sample each, with every spelling of -c (avc, h264, h.264, hevc, h265, h.265) and -sei 1 / 2: %d runs; exit by panic or no return within 20 s is a violation" % (tool_stats["inputs"], tool_stats["signatures"], tool_stats["runs"], tool_stats["segments"], tool_stats["segment_runs"]),
+                         "tools": "the built mp4ff-nallister (-annexb, avc / hevc, -sei 2 -ps) and mp4ff-pslister on %d Annex B streams (one per structural signature - leading bytes, start code lengths, unit length classes 0/1/2/3+, first bytes; %d signatures - plus a sample of the rest): %d runs; and on %d media segments without moov holding one generated sample each, with every spelling of -c (avc, h264, h.264, hevc, h265, h.265) and -sei 1 / 2: %d runs; and on a share of those segments behind an API-built init segment with an avc1 / avc3 / hvc1 / hev1 sample entry (avc3 / hev1: no parameter set in the configuration record): %d runs; exit by panic or no return within 20 s is a violation" % (tool_stats["inputs"], tool_stats["signatures"], tool_stats["runs"], tool_stats["segments"], tool_stats["segment_runs"], tool_stats["file_runs"]),
                          "budgets": "2 s + 20 us/byte wall, 16 MiB + 1024 x length allocated, worker under ulimit -v 8 GB", "fatal_worker_crashes": fatals}
     ctx.cov["rule"] = ("inputs = Robust.tla H1 grammar (exhaustive) + mutation operators applied to behaviours exported by the syntax specs; "
                        "each input is run through every entry point of its family in an isolated process under recover(); "
